@@ -75,6 +75,17 @@ pub fn check_valid(c: &MC) -> CaseResult {
     };
     ensure!(back == c.data.0, format!("entry=Sm4CipherMode::decrypt mode={} outcome=round-trip-mismatch", m.name()),
         "key={} iv={} data={} decrypted={}", hex::encode(key), hex::encode(iv), hexs::hx(&c.data), hexs::hx(&back));
+    if c.data.len() <= 4096 {
+        // key, IV and data handed over as windows at odd offsets of larger buffers: results may not depend on where the bytes live
+        let off = 1 + c.data.len() % 3;
+        let win = |b: &[u8]| { let mut v = vec![0x7Eu8; off]; v.extend_from_slice(b); v.push(0x11); v };
+        let (kb, ib, db, cb) = (win(&key), win(&iv), win(&c.data), win(&got));
+        let obj2 = lib_obj(m, &kb[off..off + 16])?;
+        let e2 = outcome(|| obj2.encrypt(&db[off..off + c.data.len()], &ib[off..off + 16]));
+        ensure!(e2 == Outcome::Ok(got.clone()), format!("entry=Sm4CipherMode::encrypt mode={} outcome=depends-on-buffer-alignment", m.name()), "len={} at byte offset {}: {}", c.data.len(), off, e2.describe());
+        let d2 = outcome(|| obj2.decrypt(&cb[off..off + got.len()], &ib[off..off + 16]));
+        ensure!(d2 == Outcome::Ok(c.data.0.clone()), format!("entry=Sm4CipherMode::decrypt mode={} outcome=depends-on-buffer-alignment", m.name()), "len={} at byte offset {}: {}", got.len(), off, d2.describe());
+    }
     let carry = m == Mode::Ctr && iv_class(&iv) != "iv-plain" && c.data.len() > 32;
     let nt = c.data.len() % 16 != 0 || c.data.len() > 16 || carry;
     pass(nt, format!("{}/{}/{}", m.name(), if c.data.len() % 16 == 0 { "aligned" } else { "ragged" }, iv_class(&iv)))
